@@ -25,6 +25,8 @@ import traceback
 import uuid
 
 FAULT_NONE, FAULT_KILL, FAULT_ERROR = 0, 1, 2
+# seams at which an injected OSError stands for a failing system call (besides write chunks)
+ERROR_SEAMS = ("open", "os.open", "replace", "rename", "close", "link", "unlink", "remove")
 
 _real = {}
 _tls = threading.local()
@@ -32,6 +34,11 @@ _tls = threading.local()
 
 class StepCap(Exception):
     pass
+
+
+def _raise_injected(sim, what: str):
+    code = sim.error_code()
+    raise OSError(code, os.strerror(code), what)
 
 
 class SimFile(io.FileIO):
@@ -92,10 +99,11 @@ class SimFile(io.FileIO):
     def close(self) -> None:
         if self.closed:
             return
-        if self._mine():
-            self._sim.seam("close", self._rel)
+        fault = self._sim.seam("close", self._rel) if self._mine() else FAULT_NONE
         self._forget()
         super().close()
+        if fault == FAULT_ERROR:
+            _raise_injected(self._sim, self._rel)
 
     def _forget(self) -> None:
         if self in self._actor.files:
@@ -221,6 +229,7 @@ class Sim:
         self.errors_left = int(knobs.get("errors", 0))
         self.fired = {"kill": 0, "error": 0, "switch": 0}
         self.kill_sites: dict[str, int] = {}
+        self.error_sites: dict[str, int] = {}
         self.fd_paths: dict[int, str] = {}
         self.open_writers: dict[str, set] = {}
         self.open_readers: dict[str, set] = {}
@@ -400,7 +409,8 @@ class Sim:
             return FAULT_KILL if self.steps == int(self.knobs["kill_at_step"]) else FAULT_NONE
         kind = actor.pending[0]
         can_kill = self.kills_left > 0 and actor.in_call and kind not in ("start",)
-        can_error = self.errors_left > 0 and kind == "write"
+        can_error = self.errors_left > 0 and (
+            kind in ("write", "fsync") or (kind in ERROR_SEAMS and actor.in_call and self.knobs.get("syscall_errors")))
         if not (can_kill or can_error):
             return FAULT_NONE
         w_none = int(self.knobs.get("w_none", 60))
@@ -477,6 +487,7 @@ class Sim:
             if fault == FAULT_ERROR:
                 self.errors_left -= 1
                 self.fired["error"] += 1
+                self.error_sites[actor.pending[0]] = self.error_sites.get(actor.pending[0], 0) + 1
             actor.decision = fault
             actor.state = "running"
             self.current = actor
@@ -571,7 +582,8 @@ def _sim_open(file, mode="r", buffering=-1, encoding=None, errors=None, newline=
     sim = _SIM
     if actor is None or sim is None or not sim.owns(file):
         return _real["open"](file, mode, buffering, encoding, errors, newline, closefd, opener)
-    sim.seam("open", f"{sim.rel(file)}:{mode}")
+    if sim.seam("open", f"{sim.rel(file)}:{mode}") == FAULT_ERROR:
+        _raise_injected(sim, sim.rel(file))
     raw_mode = mode.replace("t", "")
     if isinstance(file, int):
         actor.fds.discard(file)
@@ -596,7 +608,8 @@ def _wrap_path_fn(name: str, fn, nargs: int = 1):
         paths = [a for a in args[:nargs] if isinstance(a, (str, bytes, os.PathLike))]
         if not paths or not any(sim.owns(p) for p in paths):
             return fn(*args, **kwargs)
-        sim.seam(name, ",".join(sim.rel(p) for p in paths))
+        if sim.seam(name, ",".join(sim.rel(p) for p in paths)) == FAULT_ERROR:
+            _raise_injected(sim, sim.rel(paths[0]))
         return fn(*args, **kwargs)
 
     wrapper.__name__ = getattr(fn, "__name__", name)
@@ -611,7 +624,8 @@ def _sim_os_open(path, flags, mode=0o777, *, dir_fd=None):
         if dir_fd is None:
             return _real["os.open"](path, flags, mode)
         return _real["os.open"](path, flags, mode, dir_fd=dir_fd)
-    sim.seam("os.open", sim.rel(path))
+    if sim.seam("os.open", sim.rel(path)) == FAULT_ERROR:
+        _raise_injected(sim, sim.rel(path))
     fd = _real["os.open"](path, flags, mode)
     sim.fd_paths[fd] = sim.rel(path)
     actor.fds.add(fd)
@@ -648,7 +662,8 @@ def _sim_fsync(fd):
     actor = _actor()
     sim = _SIM
     if actor is not None and sim is not None:
-        sim.seam("fsync", str(sim.fd_paths.get(fd, "")))
+        if sim.seam("fsync", str(sim.fd_paths.get(fd, ""))) == FAULT_ERROR:
+            _raise_injected(sim, "fsync")
     return _real["os.fsync"](fd)
 
 
